@@ -231,6 +231,8 @@ func pStatements() Fam {
 		add(func() *rt.Node { return rt.If(e(), blk()) })
 		add(func() *rt.Node { return rt.If(e(), rt.Block()) })
 		add(func() *rt.Node { return rt.If(e(), blk(), rt.Block(rt.Call("g"))) })
+		add(func() *rt.Node { return rt.If(e(), blk(), rt.Block()) })                  // an empty else block is still an else block
+		add(func() *rt.Node { return rt.If(e(), rt.Block(), e(), rt.Block(), rt.Block()) }) // all branches empty
 		add(func() *rt.Node { return rt.If(e(), blk(), e(), rt.Block(rt.Call("g"))) })
 		add(func() *rt.Node { return rt.If(e(), blk(), e(), rt.Block(), Id("c"), blk(), rt.Block(rt.Call("h"))) })
 		add(func() *rt.Node { return rt.If(e(), rt.Block(rt.If(e(), blk(), blk()))) })
